@@ -65,6 +65,10 @@ CHECKS = {
             "Every tdm script of the stated families (p0/p1/p12 arrays of every element type and shape in every usage, non-p look-alike names, scalars named p0, p-arrays next to every ordinary variable kind, template parameters and loops, also with another type and without type) is loaded and compared with the reference model (argument delivered as the name, variables keep the array, no p-name among the parameters, is_template iff a {} parameter was written), then serialised and re-loaded (p-arrays exact, references and operations preserved).",
             "Extra hoisted variables after re-load not compared.",
             "DESIGN.md section 5 C15"),
+    "C04": ("exploration", "bounded-exhaustive enumeration of template scripts x value assignments, differential against textual substitution",
+            "Template scripts = slot x expression form x parameter-name set (incl. overlapping and p-like names), arrays with a bare parameter at every subset of positions, whole-array parameters; for every assignment of values from each class to the parameters, loads(S)(**v) is compared operation by operation and variable by variable with loads(S[{p} := (repr v)]); reported parameters, is_template, absence of parameters in the instance and ValueError on a missing value are checked for every case.",
+            "dtype of instantiated arrays and int-vs-float kind not compared; absolute slack 1e-12*(1+max|v|)^3 keeps cancelling cases (excluded by the property) silent. One recorded finding (functions of parameters).",
+            "DESIGN.md section 5 C04"),
     # id: (category, technique, text, note, design_ref)
     "C02": ("exploration", "bounded-exhaustive enumeration of script prefixes (BFS over item sequences) vs reference denotation",
             "Every item sequence over the statement menu up to the stated depth is rendered, loaded by the real parser/evaluator and compared with an independently written reference denotation; complete for the stated alphabet and depth, nothing beyond.",
